@@ -223,3 +223,26 @@ package module
 //@   trusted
 //@   pure
 //@   ensures a != nil ==> r == (pid_bytes(id) == pid_bytes(a))
+
+// C08: hashes of block parts as functions of the (immutable) part
+//@ property C08
+//@ smt all (declare-fun tl_hash (Iface) BSeq)
+//@ smt all (declare-fun cvs_hash (Iface) BSeq)
+//@ smt all (declare-fun digest_hash (Iface) BSeq)
+//@ smt all (declare-fun digest_src (Iface) BSeq)
+//@ smt all (declare-fun result_btp (BSeq) BSeq)
+//@ func (l TransactionList) Hash() (h)
+//@   iface
+//@   trusted
+//@   pure
+//@   ensures seq(h) == tl_hash(l)
+//@ func (v CommitVoteSet) Hash() (h)
+//@   iface
+//@   trusted
+//@   pure
+//@   ensures seq(h) == cvs_hash(v)
+//@ func (d BTPDigest) Hash() (h)
+//@   iface
+//@   trusted
+//@   pure
+//@   ensures seq(h) == digest_hash(d)
